@@ -168,8 +168,42 @@ def _run(stmts: List[ast.stmt], env: Dict[str, ast.AST]) -> Tuple[Dict[str, ast.
                 return env, rb
             env = env_b
             continue
+        if TRY_FALLBACK[0] and isinstance(s, ast.Try) and not s.finalbody and not s.orelse and len(s.handlers) == 1 and len(s.body) == 1 \
+                and isinstance(s.body[0], ast.Return) and s.body[0].value is not None and s.handlers[0].type is not None \
+                and not (s.handlers[0].name and any(isinstance(x, ast.Name) and x.id == s.handlers[0].name for b_ in s.handlers[0].body for x in ast.walk(b_))):
+            # try: return A / except E: <fallback>   ==   <fallback> if __raised__(A, 'E') else A
+            a_ = _subst(s.body[0].value, env)
+            hv = _run_handler(list(s.handlers[0].body) + list(stmts[i + 1:]), env)
+            test = ast.Call(func=ast.Name(id='__raised__', ctx=ast.Load()), args=[copy.deepcopy(a_), ast.Constant(value=ast.unparse(s.handlers[0].type))], keywords=[])
+            return env, ast.IfExp(test=test, body=hv, orelse=a_)
         raise NotSummarisable(type(s).__name__)
     return env, None
+
+
+# opt-in (set by a rule around its own reading): `try: return A except E: ...` summarised with the pseudo-calls
+# `__raised__(A, 'E')`, `__reraise__()`, `__raise__(exc)`
+TRY_FALLBACK = [False]
+
+
+def _run_handler(stmts: List[ast.stmt], env: Dict[str, ast.AST]) -> ast.AST:
+    for i, s in enumerate(stmts):
+        if isinstance(s, ast.Pass) or (isinstance(s, ast.Expr) and isinstance(s.value, ast.Constant)):
+            continue
+        if isinstance(s, ast.Raise):
+            if s.exc is None:
+                return ast.Call(func=ast.Name(id='__reraise__', ctx=ast.Load()), args=[], keywords=[])
+            return ast.Call(func=ast.Name(id='__raise__', ctx=ast.Load()), args=[_subst(s.exc, env)], keywords=[])
+        if isinstance(s, ast.Return):
+            return _subst(s.value, env) if s.value is not None else ast.Constant(value=None)
+        if isinstance(s, ast.If):
+            rest = list(stmts[i + 1:])
+            return ast.IfExp(test=_subst(s.test, env), body=_run_handler(list(s.body) + rest, env), orelse=_run_handler(list(s.orelse) + rest, env))
+        if isinstance(s, ast.Assign) and len(s.targets) == 1 and isinstance(s.targets[0], ast.Name):
+            env = dict(env)
+            env[s.targets[0].id] = _subst(s.value, env)
+            continue
+        raise NotSummarisable(type(s).__name__)
+    raise NotSummarisable('falls off the end')
 
 
 def summarise_return(fn: ast.FunctionDef, lenient: bool = False) -> Optional[ast.AST]:
